@@ -478,6 +478,14 @@ class Engine:
             for _, s1 in self.ev(n0, st, func):
                 res.extend(self.lvalue(children(n0)[0], s1, func))
             return res
+        if k == 'ConditionalOperator':
+            c, a, b = children(n0)
+            res = []
+            for truth, s1 in self.cond(c, st, func):
+                res.extend(self.lvalue(a if truth else b, s1, func))
+            return res
+        if k == 'ParenExpr':
+            return self.lvalue(children(n0)[0], st, func)
         if k in CALL_KINDS:
             res = []
             for v, s1 in self.call(n0, st, func):
@@ -514,6 +522,11 @@ class Engine:
                 cell = st.cells.get((lv[1].region, lv[1].off.key()))
                 if cell is not None:
                     return cell
+                hook = self.cfg.get('load_hook')
+                if hook is not None:
+                    hv = hook(self, st, lv[1], t)
+                    if hv is not None:
+                        return hv
                 if self.cfg.get('track_reads') and (btype(t) in UBITS or btype(t) in SBITS):
                     v = self.fresh('elem', st, t)
                     st.ghost.append(('elem', lv[1], v))
@@ -526,6 +539,9 @@ class Engine:
         st.ftypes[(obj, name)] = t
         if bt in UBITS or bt in SBITS:
             v = self.named('%s.%s' % (obj, name), st, t)
+        elif bt in self.prog.enums:
+            # an enumeration: an integer (any value of the underlying type), never an object
+            v = self.named('%s.%s' % (obj, name), st, 'int')
         elif bt.endswith(']') and '[' in bt:
             # array field: a region
             region = '%s.%s' % (obj, name)
@@ -840,6 +856,30 @@ class Engine:
         return '%s@%s' % (n.get('k'), n.get('l'))
 
     def compare(self, op, x, y, st, node, func):
+        res = self.compare_(op, x, y, st, node, func)
+        if self.cfg.get('cstring_elems'):
+            for _, s in res:
+                self.refine_cstring_elems(s)
+        return res
+
+    def refine_cstring_elems(self, st):
+        """a byte read from inside a C string (offset <= strlen) is zero exactly at offset strlen: once a
+        comparison has decided that the byte is (not) zero, the offset is (below) the length"""
+        for g in st.ghost:
+            if g[0] != 'elem':
+                continue
+            p, v = g[1], g[2]
+            w = st.fields.get((p.region, 'strlen'))
+            if w is None or not isinstance(v, Lin) or not entails(st.cons, le(p.off, w)):
+                continue
+            if entails(st.cons, ge(v, 1)) or entails(st.cons, le(v, -1)):
+                if not entails(st.cons, le(p.off, w - 1)):
+                    st.assume(le(p.off, w - 1))
+            elif entails(st.cons, ge(v, 0)) and entails(st.cons, le(v, 0)):
+                if not entails(st.cons, ge(p.off, w)):
+                    st.assume(ge(p.off, w))
+
+    def compare_(self, op, x, y, st, node, func):
         if isinstance(x, Ptr) and isinstance(y, Ptr) and x.region == y.region:
             x, y = x.off, y.off
         if isinstance(x, Ptr) and isinstance(y, Lin) and y.is_const() and y.c == 0:
@@ -2034,6 +2074,9 @@ def m_strlen(eng, n, st, func, want):
                                                   func.loc(n), 'no terminator known at or after %r' % (p,)))
             out.append((r, s1))
         else:
+            if isinstance(p, Lin) and p.is_const() and p.c == 0:
+                eng.obligations.append(Obligation(eng.root, 'bounds', 'strlen() argument is not a null pointer', False,
+                                                  func.loc(n), 'null on the path [%s]' % '; '.join(s1.trail[-5:])))
             out.append((eng.fresh('strlen', s1, 'unsigned long'), s1))
     return out
 
@@ -2100,7 +2143,15 @@ def m_string_method(eng, n, st, func, want):
                 s1.fields[(name, 'length')] = vals[1]
                 s1.fields[(name, 'source')] = vals[0]
                 content = ('copy', Ptr(name + '.data', 0), vals[0], vals[1])
+            elif len(vals) == 1 and isinstance(vals[0], Lin) and vals[0].is_const() and vals[0].c == 0 and \
+                    (real[0].get('t') or '').endswith('*'):
+                # std::string( nullptr): libstdc++ throws std::logic_error
+                s1.status = 'throw'
+                s1.thrown = 'std::logic_error'
+                out.append((UNKNOWN, s1))
+                continue
             elif len(vals) == 1 and isinstance(vals[0], Ptr):
+                eng.access(s1, vals[0], 1, 'std::string( const char*) source', n, func)
                 base = s1.fields.get((vals[0].region, 'strlen'))
                 s1.fields[(name, 'length')] = (base - vals[0].off) if base is not None else \
                     eng.fresh('len', s1, 'unsigned long')
@@ -2147,6 +2198,32 @@ def m_string_method(eng, n, st, func, want):
             out.append((Ptr(ov.name + '.data', 0), s1))
         elif short in ('end', 'cend'):
             out.append((Ptr(ov.name + '.data', eng.string_len(s1, ov.name)), s1))
+        elif short in ('append', 'operator+=', 'assign', 'operator=') and len(args) == 1 and \
+                (args[0].get('t') or '').replace('const ', '').strip() == 'char *':
+            # a C string argument: must be a valid, non-null pointer
+            for (v,), s2 in _ev_all(eng, args[:1], s1, func):
+                if isinstance(v, Ptr):
+                    eng.access(s2, v, 1, 'C string passed to std::string::%s' % short, n, func)
+                elif isinstance(v, Lin) and v.is_const() and v.c == 0:
+                    eng.obligations.append(Obligation(eng.root, 'bounds', 'C string passed to std::string::%s is not a '
+                                                      'null pointer' % short, False, func.loc(n),
+                                                      'null on the path [%s]' % '; '.join(s2.trail[-5:])))
+                key = (ov.name, 'length')
+                if key in s2.fields:
+                    s2.fields[key] = eng.fresh('len', s2, 'unsigned long')
+                out.append((ov, s2))
+        elif short in ('find', 'find_first_of', 'rfind', 'find_last_of', 'find_first_not_of', 'find_last_not_of'):
+            # a position inside the text or npos
+            ln = eng.string_len(s1, ov.name)
+            for _vals, s2 in _ev_all(eng, args, s1, func):
+                hit = s2.copy()
+                k = eng.fresh(short, hit, 'unsigned long')
+                hit.assume(lt(k, ln))
+                hit.trail.append('%s finds a position' % short)
+                if hit.ok():
+                    out.append((k, hit))
+                s2.trail.append('%s finds nothing' % short)
+                out.append((lin((1 << 64) - 1), s2))
         elif short == 'substr':
             # substr( pos, n): throws std::out_of_range if pos > size(), else min( n, size() - pos) characters
             ln = eng.string_len(s1, ov.name)
